@@ -289,6 +289,19 @@ func genCase(t *rapid.T) *Case {
 			c.Detour = append(c.Detour, rt.RouteSpec{Method: src.Method, Pattern: h + rest})
 		}
 	}
+	if gen.Chance(t, 1, 20, "longtwins") {
+		// two hostnames that agree on their first 31 to 100 bytes, registered after everything else
+		n := gen.Pick(t, []int{31, 32, 33, 40, 63, 64, 65, 100}, "shared")
+		hstem := "tenant-a.api.eu-central-1.internal.example-" + strings.Repeat("x", max(n-43, 0))
+		hstem = hstem[:max(n, 20)]
+		hstem = strings.TrimRight(hstem, ".-")
+		for _, p := range []string{hstem + "a.com/", hstem + "b.org/", hstem + "b.org/{p}", "/"} {
+			c.Routes = append(c.Routes, rt.RouteSpec{Method: "GET", Pattern: p})
+		}
+		for _, h := range []string{hstem + "a.com", hstem + "b.org", hstem + "b.org:8080", hstem + "c.org", hstem[:10] + "b.org", hstem} {
+			c.Reqs = append(c.Reqs, rt.Req{Method: "GET", Host: h, Path: "/"}, rt.Req{Method: "GET", Host: h, Path: "/zz"})
+		}
+	}
 	nreq := gen.IntR(t, 1, 6, "nreq")
 	for i := 0; i < nreq; i++ {
 		src := gen.Pick(t, c.Routes, "src")
